@@ -1,2 +1,19 @@
 import Solvor.Cp.Theorems
 /-! Axiom audit for the property theorems of C06 (run by every check). -/
+#print axioms Solvor.Cp.check_decides
+#print axioms Solvor.Cp.solutions_complete
+#print axioms Solvor.Cp.solve_correct
+#print axioms Solvor.Cp.enumProj_spec
+#print axioms Solvor.Cp.encode_vars_decode
+#print axioms Solvor.Cp.enc_all_different
+#print axioms Solvor.Cp.enc_eq_const
+#print axioms Solvor.Cp.enc_ne_const
+#print axioms Solvor.Cp.enc_eq_var
+#print axioms Solvor.Cp.enc_ne_var
+#print axioms Solvor.Cp.enc_no_overlap
+#print axioms Solvor.Cp.enc_linear
+#print axioms Solvor.Cp.enc_sum_eq
+#print axioms Solvor.Cp.enc_sum_le
+#print axioms Solvor.Cp.enc_sum_ge
+#print axioms Solvor.Cp.encode_compositional
+#print axioms Solvor.Cp.encode_model_exact_partial
